@@ -509,6 +509,45 @@ def float32_constant_probe(rep, r, n):
                           f'rms up to {np.abs(rms).max() / ulp:.0f} ulp (float32 ulp)', rp)
 
 
+def filter_threshold_probe(rep, r, n):
+    """(S) filter_threshold is a level of the BACKGROUND mesh: with filter_size > 1 only the boxes whose background value exceeds it are median
+    filtered, in the background mesh and - the same boxes - in the RMS mesh; every other box keeps the value of the unfiltered meshes.  Images
+    with a background near 0 and an RMS near 5, so that the threshold lies between the two meshes (seed C11-r12 compared the threshold with the
+    minimum of the mesh being filtered)"""
+    import warnings
+    import photutils.background as pb
+    for k in range(n):
+        rs = np.random.RandomState(r.randrange(2 ** 31))
+        by, bx = r.choice([(8, 8), (10, 8), (8, 12)])
+        ny, nx = by * r.randint(4, 6), bx * r.randint(4, 6)
+        img = rs.normal(0.0, 5.0, (ny, nx))
+        for _ in range(r.randint(1, 3)):                          # a few bright boxes
+            j, i = r.randrange(ny // by), r.randrange(nx // bx)
+            img[j * by:(j + 1) * by, i * bx:(i + 1) * bx] += r.choice([8.0, 15.0])
+        fthr = r.choice([3.0, 4.0])
+        fs = r.choice([(3, 3), (3, 5)])
+        kw = dict(sigma_clip=None, bkg_estimator=pb.MeanBackground(), bkgrms_estimator=pb.StdBackgroundRMS())
+        rp = {'kind': 'filter-threshold', 'data': img.tolist(), 'box_size': [by, bx], 'filter_size': list(fs), 'filter_threshold': fthr}
+        try:
+            with warnings.catch_warnings():
+                warnings.simplefilter('ignore')
+                b0 = pb.Background2D(img, (by, bx), filter_size=(1, 1), **kw)
+                b1 = pb.Background2D(img, (by, bx), filter_size=fs, filter_threshold=fthr, **kw)
+                m0, r0, m1, r1 = (np.asarray(v, float) for v in (b0.background_mesh, b0.background_rms_mesh, b1.background_mesh, b1.background_rms_mesh))
+        except Exception as e:                                  # noqa: BLE001
+            rep.violation(f'construct-raises:{type(e).__name__}:filter-threshold', f'Background2D raised {e!r}', rp)
+            continue
+        rep.case(('fthr', img.tobytes()[:64], fthr, fs), True, kind='filter-threshold')
+        rep.probe_only += 1
+        if not (fthr >= m0.min()):
+            continue
+        keep = m0 <= fthr
+        if not (np.array_equal(m1[keep], m0[keep]) and np.array_equal(r1[keep], r0[keep])):
+            nb_, nr_ = int(np.count_nonzero(m1[keep] != m0[keep])), int(np.count_nonzero(r1[keep] != r0[keep]))
+            rep.violation('filter-threshold-not-selective', f'filter_threshold={fthr} (background mesh range [{m0.min():.3g}, {m0.max():.3g}], RMS mesh minimum {r0.min():.3g}): '
+                          f'{nb_} background and {nr_} RMS mesh values of boxes at or below the threshold changed under filter_size={fs}', rp)
+
+
 def integer_constant_probe(rep, r, n):
     """constant frames of integer dtype, values beyond the float32 integer range (2**24) included: the constant comes back exactly, RMS 0
     (defect F65: integer data were copied to float32)"""
@@ -559,6 +598,7 @@ def run(rep, tier):
     probes(rep, r, 36 * scale)
     float32_constant_probe(rep, r, 16 * scale)
     integer_constant_probe(rep, r, 6 * scale)
+    filter_threshold_probe(rep, r, 6 * scale)
 
 
 def replay(rep, data):
